@@ -92,6 +92,13 @@ CHECKS = [
           "it raises and which single broker call it may cause (observed at the connection boundary); actor programmes check callback order, "
           "position and value of the lazily placed result store, and that nothing runs after the eager response.",
   "note": _MODEL + _SRV},
+ {"property_id": "C17", "level": "exploration", "design_ref": "DESIGN.md §4 C17",
+  "technique": "differential property-based testing: the same lifecycle script with and without generated subscriber sets (signatures, sync/async, raising), signal-log oracle, two connections",
+  "text": "Every wrapped operation is exercised by a fixed lifecycle script under generated call styles and subscriber sets; the signal log "
+          "must show exactly one before (seen in the pre-state) and one after iff the call returned, with the actual arguments by name and the "
+          "result, nothing from nested calls and nothing to another connection's subscribers; results, exceptions and final broker state must "
+          "equal the subscriber-free run.",
+  "note": _MODEL + _SRV},
  {"property_id": "C18", "level": "exploration", "design_ref": "DESIGN.md §4 C18",
   "technique": "property-based testing over generated dependency DAGs (exec-ed providers) against a recursive reference evaluator, with override sequences, failing providers and invalid declarations",
   "text": "Random DAGs with shared nodes, sync/async providers and message-dependency leaves are resolved by a real Worker; a 15-line recursive "
